@@ -110,8 +110,9 @@ def _finish_pass(env, jb, kw, seed, want_props, res, agg, seen_names, S, core, l
         raise RuntimeError("branch on a symbolic value outside path exploration (%d), e.g. %s" % (
             len(S.PATH.unexplored), repr(S.PATH.unexplored[0])[:200]))
     # native replay of refuted obligations against the real code
+    seen_before = set(seen_names)           # only obligations of earlier passes are duplicates (a pass may reuse a name)
     for o in env.obls:
-        if o.name in seen_names:
+        if o.name in seen_before:
             continue
         seen_names.add(o.name)
         if want_props and not (set(o.prop.split(",")) & set(want_props)):
